@@ -154,8 +154,9 @@ def seeded_for(prop: str) -> List[Tuple[str, str]]:
         m = json.load(f)
     except Exception:
       continue
-    props = m.get('detected_by') or [m.get('property')]
-    if prop in props:
+    # the target property's own check is always expected to see the change;
+    # other checks that were recorded as detecting it keep it as a regression case
+    if prop == m.get('property') or prop in (m.get('detected_by') or []):
       out.append((name, patch))
   return out
 
